@@ -210,6 +210,7 @@ var c02Opts = func() worldOpts {
 	o := histOpts
 	o.maxOps = 25
 	o.constructed = 9
+	o.orphanRevs = true
 	w := opWeights{}
 	for k, v := range defaultWeights {
 		w[k] = v
